@@ -328,7 +328,7 @@ class Evaluator:
             return v
         if k == "loop":
             # a loop whose exit conditions are decided by the (concrete or oracle-chosen) values: iterated, with a bound
-            for _ in range(LOOP_BOUND):
+            for _ in range(getattr(self, "loop_bound", LOOP_BOUND)):
                 try:
                     self.ev(e["body"], env)
                 except Break as br:
@@ -338,7 +338,7 @@ class Evaluator:
                 except Continue as ct:
                     if ct.label is not None and ct.label != e.get("label"):
                         raise
-            raise Unrecognised(f"loop at line {e.get('ln', '?')} not finished after {LOOP_BOUND} iterations")
+            raise Unrecognised(f"loop at line {e.get('ln', '?')} not finished after {getattr(self, 'loop_bound', LOOP_BOUND)} iterations")
         if k == "break":
             raise Break(e.get("label"), self.ev(e["e"], env) if isinstance(e.get("e"), dict) else ("unit",))
         if k == "continue":
